@@ -952,6 +952,13 @@ func (h *harness) shrinkOp(cs Case, f *failure) (Case, *failure) {
 // ---- driver -----------------------------------------------------------------------------------------------
 
 func (h *harness) runCase(cs Case, verbose bool) *failure {
+	if h.reported["property"]+h.reported["crash"] >= 40 {
+		// the property is already shown violated many times over (three cases are kept); a change that
+		// breaks a whole route makes every further exchange slow (timeouts, closed connections):
+		// the rest of the run would add nothing
+		h.run.Count("cases skipped after 40 property failures")
+		return nil
+	}
 	switch cs.Kind {
 	case "op":
 		if cs.Big != nil {
